@@ -53,6 +53,40 @@ def run(chk):
     chk.rule('C18-U', 'no function accepts a context parameter and then ignores it')
     forwarding.dead_context_params(chk, c, 'C18-U', REF)
 
+    # ---- C18-R: the structure an element was given is not replaced by the standard one
+    chk.rule('C18-R', 'outside constructors, _find_structure() without a reference (= reload from the standard tables) is '
+                      'called only where the element has no structure yet (the is_unknown() branch)')
+    from ..cfg import cfg_of, ENTRY, edge_implies
+    UNKNOWN_POS = ('self.is_unknown()', 'self.name is None', 'not self.name')
+    UNKNOWN_NEG = ('self.name is not None', 'self.name')
+    nr = 0
+    for fq, fi in sorted(ix.functions.items()):
+        if fi.module.name not in ('core', 'parser') or fi.name in ('__init__', '_find_structure'):
+            continue
+        calls = [x for x in own_nodes(fi.node) if isinstance(x, ast.Call) and isinstance(x.func, ast.Attribute) and
+                 x.func.attr == '_find_structure' and norm(x.func.value) == 'self']
+        for x in calls:
+            nr += 1
+            given = list(x.args) + [k.value for k in x.keywords if k.arg in (None, 'reference')]
+            if given and not all(isinstance(a, ast.Constant) and a.value is None for a in given):
+                chk.ok('C18-R', '%s: %s passes a reference' % (fq, norm(x)[:50]), '', '%s:%d' % (fi.module.relpath, x.lineno),
+                       key='C18-R|%s|arg' % fq)
+                continue
+            g = cfg_of(fi)
+
+            def labels_ok(src, dst, lab, g=g):
+                nd = g.nodes[src]
+                if nd.kind == 'test' and edge_implies(nd.ast, lab, UNKNOWN_POS, UNKNOWN_NEG):
+                    return False
+                return True
+            reach = g.reach(ENTRY, labels_ok=labels_ok)
+            bad = g.node_for(x) in reach
+            chk.ob('C18-R', '%s reloads the standard structure only for an element without one' % fq, not bad,
+                   '`self._find_structure()` is reachable for an element that already has a structure: a message created '
+                   'with reference=<profile> silently falls back to the standard tables', '%s:%d' % (fi.module.relpath, x.lineno),
+                   key='C18-R|%s|reload' % fq)
+    chk.floor('_find_structure() calls outside constructors', nr, 1)
+
     # ---- C18-V
     ev = ix.func('core.Element.validate')
     ok = False
